@@ -38,6 +38,7 @@ package tchannel
 //@ pred IsCallType(t messageType) := t == messageTypeCallReq || t == messageTypeCallReqContinue || t == messageTypeCallRes || t == messageTypeCallResContinue || t == messageTypeError
 
 //@ func isMessageTypeCall(frame *Frame) (ok bool)
+//@   requires own(frame) == 1
 //@   ensures ok <==> IsCallType(frame.Header.messageType)
 //@   property C19
 
@@ -47,12 +48,14 @@ package tchannel
 // converse -- a call frame sets the stamp to now -- cannot be stated: Store has
 // no modelled effect.)
 //@ func (c *Connection) updateLastActivityRead(frame *Frame)
+//@   requires own(frame) == 1
 //@   requires c.timeNow != nil
 //@   modifies all
 //@   ensures !IsCallType(old(frame.Header.messageType)) ==> actRead(c) == old(actRead(c))
 //@   property C19
 
 //@ func (c *Connection) updateLastActivityWrite(frame *Frame)
+//@   requires own(frame) == 1
 //@   requires c.timeNow != nil
 //@   modifies all
 //@   ensures !IsCallType(old(frame.Header.messageType)) ==> actWrite(c) == old(actWrite(c))
